@@ -138,8 +138,24 @@ func (x *Exec) invoke(site ssa.Instruction, c *ssa.CallCommon, recv Value, args 
 		return w.UF("error.Error", SStr, rt)
 	}
 	x.obl("safety[nil-deref]", "safety", "method call on nil interface", st, Not(Eq(rt, Term{"iface.nil", SIface})))
+	if observerMethods[c.Method.FullName()] && sig.Results().Len() == 1 {
+		// observers of standard-library interface values: a function of the receiver, no effects
+		x.u.usedAssumed["observer method "+c.Method.FullName()+" of a library interface value has no side effects and is a function of its receiver"] = true
+		ts := []Term{rt}
+		for _, a := range args {
+			ts = append(ts, x.term(a))
+		}
+		r := w.UF("obs."+sanitize(c.Method.FullName()), w.SortOf(sig.Results().At(0).Type()), ts...)
+		x.assumeTypeInv(r, sig.Results().At(0).Type(), x.curBlockReach, st)
+		return r
+	}
 	x.note("interface method call " + c.Method.FullName() + " havocs heaps reachable by type")
 	return x.havocCall(site, sig, "invoke."+name, args, nil, st, true)
+}
+
+var observerMethods = map[string]bool{
+	"(io/fs.DirEntry).Name": true, "(io/fs.DirEntry).IsDir": true, "(io/fs.FileInfo).Name": true, "(io/fs.FileInfo).Size": true,
+	"(io/fs.FileInfo).IsDir": true, "(io/fs.FileInfo).Mode": true,
 }
 
 // ---------------------------------------------------------------------------
@@ -641,7 +657,7 @@ func (x *Exec) havocCall(site ssa.Instruction, sig *types.Signature, name string
 				st.cells[k] = u.W.Fresh("g."+g.Name(), u.W.SortOf(t))
 			}
 		}
-		u.globalEpoch++
+		st.gdirty = true
 	}
 	res := sig.Results()
 	var vals []Value
